@@ -274,6 +274,11 @@ class WSStream:
                 {"type": "websocket.disconnect", "code": CloseReason.ABNORMAL_CLOSURE.value}
             )
         elif isinstance(event, (Body, Data)):
+            if self.connection.state == ConnectionState.CLOSED:
+                # Both sides have said goodbye (the reply to the client's
+                # close may only just have been sent), whatever the client
+                # sends now is not part of the WebSocket connection.
+                return
             self.connection.receive_data(event.data)
             await self._handle_events()
         elif isinstance(event, StreamClosed):
